@@ -183,6 +183,24 @@ start :: fn do
 end
 ''', {"a": (0, 2)})
 
+T("string_literal_escapes", "string-literals-with-backslashes", r'''
+start :: fn do
+    print("C:\\dir")
+    print("x\\065")
+    print("ends with \\")
+    print("tab\there")
+    print("line\nbreak")
+    print("q\d")
+    print("two\\\\back")
+    print("n after \\n")
+    s := "a\\" + "b"
+    print(s)
+    print(s == "a\\b")
+    print("a\\b" < "a\\c")
+    print(("\\", ?a))
+end
+''', {"a": (0, 1)})
+
 T("tuple_order", "tuple-lexicographic-order", '''
 start :: fn do
     t := (?a, ?b)
